@@ -378,3 +378,35 @@ Qed.
 
 Lemma bank_padding_refuted : bank_padding 1099511627776 1 true = SOk 1099511627775 /\ Known_bank_size_huge 1099511627776 = true.
 Proof. split; vm_compute; reflexivity. Qed.
+
+Lemma branch_base_panics_iff cur target :
+  branch_base cur target = SPanic <-> two64 <= (match cur with Some p => p | None => pc_from_i64 target end) + 2.
+Proof. unfold branch_base. apply pc_add_panics_iff. Qed.
+
+(* in the segment-less first pass exactly the branch targets -1 and -2 panic *)
+Lemma branch_pass0_panics_iff target : in_i64 target = true -> (branch_base None target = SPanic <-> target = -1 \/ target = -2).
+Proof.
+  intros H. rewrite branch_base_panics_iff. unfold pc_from_i64, as_usize, two64. unfold in_i64, i64_min, i64_max in H.
+  destruct (Z_lt_ge_dec target 0) as [N|P].
+  - assert (Q : target mod 18446744073709551616 = target + 18446744073709551616) by (symmetry; apply Z.mod_unique with (q := -1); lia).
+    rewrite Q. lia.
+  - rewrite Z.mod_small by lia. lia.
+Qed.
+
+(* branch targets and current pcs inside 0..2^62 never panic in the branch arm, in any pass *)
+Lemma branch_offset_guarded cur target :
+  0 <= target < 4611686018427387904 -> (match cur with Some p => 0 <= p < 4611686018427387904 | None => True end) ->
+  branch_offset cur target <> SPanic.
+Proof.
+  intros Ht Hc. unfold branch_offset, branch_base, pc_add. change pc_add_checked with false. cbv iota.
+  set (base := match cur with Some p => p | None => pc_from_i64 target end).
+  assert (Hb : 0 <= base < 4611686018427387904).
+  { unfold base. destruct cur as [p|]; [exact Hc|]. unfold pc_from_i64, as_usize, two64. rewrite Z.mod_small by lia. lia. }
+  assert (E : (two64 <=? base + 2) = false) by (unfold two64; lia). rewrite E.
+  assert (W : usize_as_i64 (base + 2) = base + 2) by (unfold usize_as_i64, wrap64, two64; rewrite Z.mod_small by lia; lia).
+  rewrite W.
+  assert (I : in_i64 (target - (base + 2)) = true) by (unfold in_i64, i64_min, i64_max; lia). rewrite I. discriminate.
+Qed.
+
+Lemma branch_offset_refuted : branch_offset None i64_max = SPanic /\ branch_offset (Some 49152) (-9223372036854775807) = SPanic.
+Proof. split; vm_compute; reflexivity. Qed.
